@@ -15,10 +15,12 @@
 *)
 EXTENDS Integers, Sequences, FiniteSets, TLC
 CONSTANTS MaxRows
-HCells == {"a", "b", "bad", "na", "off", "dly", "on", "doff", "ona", "offa"}
+HCells == {"a", "b", "bad", "na", "off", "dly", "on", "doff", "ona", "offa", "onoff"}
    \* on: Onset of the definition; doff: its Offset shifted by Delay; ona / offa: the marker AND tag a in one cell - with category a
    \* the assembled row repeats the tag (a row-level error in a row whose cells are each fine) and the marker still takes effect
-OnCells == {"on", "ona"}
+\* onoff: an Onset and an Offset of the SAME definition in one cell - the second marker is refused (the name was already used at
+   \* this time) and, being refused, does not take effect: the scope is open afterwards
+OnCells == {"on", "ona", "onoff"}
 OffCells == {"off", "doff", "offa"}
 CCells == {"a", "b", "bad", "na", "unk"}
 VARIABLES rows,      \* Seq([onset, h, c])   onset: 0 = n/a, otherwise a distinct positive time
@@ -53,6 +55,7 @@ RowErr(t, i) == IF ~Clean(t, i) THEN {}
                      \* an Offset is unmatched exactly when no Onset is open at its effective time
                      \cup (IF t[i].h \in OffCells /\ Timed(t, i) /\ ~Open(t, EffTime(t, i))
                            THEN {<<"TEMPORAL_TAG_ERROR", FileRow(i), "">>} ELSE {})
+                     \cup (IF t[i].h = "onoff" /\ Timed(t, i) THEN {<<"TEMPORAL_TAG_ERROR", FileRow(i), "">>} ELSE {})
                      \* temporal tags need a time
                      \cup (IF t[i].h \in OffCells \cup OnCells \cup {"dly"} /\ ~Timed(t, i) THEN {<<"TEMPORAL_TAG_ERROR", FileRow(i), "">>} ELSE {})
 Structure(t, i) == IF t[i].c = "unk" THEN {<<"SIDECAR_KEY_MISSING", FileRow(i), "cat">>} ELSE {}
